@@ -445,6 +445,8 @@ def run(ctx):
     q = ctx.quick
     ctx.mc('MC_VMSA', coverage=False, timeout=3000)
     ctx.mc('MC_LPAE', coverage=False, timeout=3000)
+    # stage 2 (beyond the property's wording): walk shapes x VTCR.SL0/T0SZ x HAP x AF x MemAttr x SH x HCR.DC x alignment against the prose
+    ctx.mc('MC_S2', constants={'FULL': 'FALSE' if q else 'TRUE'}, coverage=False, timeout=3000)
     r = ctx.mc('MC_LPAE', constants={'GEN': 'TRUE'}, coverage=False, timeout=3000)
     scen = tlc.printed_json(r['out'])
     if len(scen) < 3000:
